@@ -279,6 +279,7 @@ impl<'a> GeneralCheck<'a> {
             let mut open = FxHashSet::default();
             let mut created = FxHashMap::default();
             let mut used = FxHashSet::default();
+            let mut crossed = FxHashSet::default();
             let left_rec = sema.recursive.get(&rule).is_some_and(|rec| {
                 rec.branches()
                     .iter()
@@ -291,6 +292,7 @@ impl<'a> GeneralCheck<'a> {
                 &mut open,
                 &mut created,
                 &mut used,
+                &mut crossed,
                 left_rec,
             );
             for (num, span) in created {
@@ -653,6 +655,7 @@ impl<'a> GeneralCheck<'a> {
         open: &mut FxHashSet<&'a str>,
         created: &mut FxHashMap<&'a str, Span>,
         used: &mut FxHashSet<&'a str>,
+        crossed: &mut FxHashSet<&'a str>,
         left_rec: bool,
     ) {
         match regex {
@@ -664,6 +667,7 @@ impl<'a> GeneralCheck<'a> {
                     &mut open.clone(),
                     created,
                     used,
+                    crossed,
                     left_rec,
                 )
             }),
@@ -675,13 +679,14 @@ impl<'a> GeneralCheck<'a> {
                     &mut open.clone(),
                     created,
                     used,
+                    crossed,
                     left_rec,
                 )
             }),
             Regex::Concat(regex) => {
                 let old_open = open.clone();
                 for op in regex.operands(cst) {
-                    Self::check_node_creation(cst, op, diags, open, created, used, left_rec);
+                    Self::check_node_creation(cst, op, diags, open, created, used, crossed, left_rec);
                 }
                 *open = old_open;
             }
@@ -694,6 +699,7 @@ impl<'a> GeneralCheck<'a> {
                         &mut open.clone(),
                         created,
                         used,
+                        crossed,
                         left_rec,
                     )
                 }
@@ -707,6 +713,7 @@ impl<'a> GeneralCheck<'a> {
                         &mut open.clone(),
                         created,
                         used,
+                        crossed,
                         left_rec,
                     )
                 }
@@ -720,6 +727,7 @@ impl<'a> GeneralCheck<'a> {
                         &mut open.clone(),
                         created,
                         used,
+                        crossed,
                         left_rec,
                     )
                 }
@@ -733,6 +741,7 @@ impl<'a> GeneralCheck<'a> {
                         &mut open.clone(),
                         created,
                         used,
+                        crossed,
                         left_rec,
                     )
                 }
@@ -749,12 +758,23 @@ impl<'a> GeneralCheck<'a> {
                 let span = regex.span(cst);
                 if let Some(num) = regex.number(cst) {
                     used.insert(num);
-                    if !open.contains(num) {
-                        if let Some(open_span) = created.get(num) {
-                            diags.push(Diagnostic::invalid_create_node(&span, open_span));
-                        } else {
-                            diags.push(Diagnostic::undefined_create_node(&span));
-                        }
+                    if open.contains(num) {
+                        // the new node is inserted at the marker, which moves everything behind
+                        // it: markers visited after this one are inside the new node now
+                        let start = created[num].start;
+                        open.retain(|other| {
+                            let inside = created[other].start > start;
+                            if inside {
+                                crossed.insert(other);
+                            }
+                            !inside
+                        });
+                    } else if crossed.contains(num) {
+                        diags.push(Diagnostic::crossing_create_node(&span, &created[num]));
+                    } else if let Some(open_span) = created.get(num) {
+                        diags.push(Diagnostic::invalid_create_node(&span, open_span));
+                    } else {
+                        diags.push(Diagnostic::undefined_create_node(&span));
                     }
                 } else if left_rec {
                     diags.push(Diagnostic::create_rule_node_left_rec(&span));
